@@ -92,3 +92,15 @@ Definition cp_startswith (s sub : list N) (beg end_ : Z) : bool :=
   let e := clip_end end_ size in
   let b := clip_beg beg size in
   if (b >? size) || (e <? b) then false else is_prefix sub (window s b e).
+
+(* Python's count over code points: non-overlapping occurrences in the window, leftmost first;
+   the empty string occurs between all characters and at both ends *)
+Definition cp_count (s sub : list N) (beg end_ : Z) : Z :=
+  let size := Z.of_nat (length s) in
+  let e := clip_end end_ size in
+  let b := clip_beg beg size in
+  if (b >? size) || (b >? e) then 0 else
+  match sub with
+  | [] => Z.of_nat (length (window s b e)) + 1
+  | _ => Z.of_nat (count_go sub (window s b e) 0)
+  end.
